@@ -121,7 +121,7 @@ check and undo it (evidence of the unchanged tree is preserved).
 
 ### 9.7 Which check catches which seeded change (last runs, quick tier)
 
-Batch 1: {c(r1)} of 40 reported; 1 silent because it is no longer a violation on the repaired tree (its own demo passes with the change applied); 3 no longer apply because a `fix:` commit rewrote the lines they touch.
+Batch 1 (last run after round 7): {c(r1)} of 40 reported; 2 silent because they are no longer violations on the repaired tree (their own demos pass with the change applied: C04-m1, C09-m1); 6 no longer apply because a `fix:` commit rewrote the lines they touch (4 of them were reported in earlier runs, before that fix).
 One report (C03-m2) is an instance of the technique's conservatism rather than a reproduced violation: the change is harmless on the repaired tree, but it rewrites a branch of a function whose contract can then no longer be proved.
 
 {table(r1)}
@@ -134,7 +134,7 @@ Batch 3 (after strengthening): {c(r3)} of 20 reported.
 
 {table(r3)}
 
-Batch 4 (after strengthening): {c(r4)} of 20 reported.
+Batch 4 (after strengthening; last run after round 7): {c(r4)} of 20 reported; 1 silent because it is harmless on the repaired tree (C14-j1, see §9.5 for the over-specific contract that briefly reported it); 1 no longer applies since fix 514d173 (it was reported before).
 
 {table(r4)}
 
